@@ -52,6 +52,17 @@ class E(enum.Enum):
 class GD(typing.Generic[T]):
     pass
 import re
+K = typing.TypeVar("K"); V = typing.TypeVar("V")
+@dataclasses.dataclass
+class Pair(typing.Generic[K, V]):
+    key: K
+    value: V
+@dataclasses.dataclass
+class Triple(typing.Generic[K, V, T]):
+    a: K
+    b: V
+    c: T
+    n: int = 0
 IntList = typing.TypeAliasType("IntList", list[int])
 Tags = typing.NewType("Tags", list[str])
 Handlers = typing.TypeAliasType("Handlers", dict[str, typing.Callable[[int], str]])
@@ -72,7 +83,7 @@ LEAVES = ["int", "str", "typing.Any", "object", "list", "dict", "tuple", "set", 
           "typing.Tuple", "T", "B", "Cn", "typing.Callable[[int], str]", "typing.Callable[..., typing.Any]",
           "collections.abc.Callable", "type[int]", "typing.Type[DC]", "G", "G[int]", "NoHints", "DC", "E", "None",
           "typing.Literal[1, 'a']", "datetime.datetime", "decimal.Decimal", "GD", "GD[str]", "CV", "DCall", "re.Pattern[str]", "re.Pattern",
-          "IntList", "Tags", "Handlers", "IntBox", "MaybeDC", "DCId"]
+          "IntList", "Tags", "Handlers", "IntBox", "MaybeDC", "DCId", "Pair", "Triple", "Pair[int, str]"]
 UNARY = ["list[{0}]", "typing.List[{0}]", "tuple[{0}, ...]", "dict[str, {0}]", "typing.Optional[{0}]", "typing.Sequence[{0}]",
          "collections.abc.Mapping[str, {0}]", "frozenset[{0}]", "G[{0}]"]
 BINARY = ["tuple[{0}, {1}]", "typing.Union[{0}, {1}]", "dict[{0}, {1}]"]
@@ -172,6 +183,19 @@ def child(job):
                     pt.append(f"marshaller({src})({src}(a=2)) did not marshal the instance: {w!r}")
             except Exception as e:  # noqa: BLE001
                 pt.append(f"structured probe raised {type(e).__name__}: {e}"[:160])
+        # the fields of an unparameterised generic class typed by FREE TypeVars (several distinct ones) are pass-through positions
+        if src in ("Pair", "Triple"):
+            names = ["key", "value"] if src == "Pair" else ["a", "b", "c"]
+            try:
+                vals = [s, "text", [s]][:len(names)]
+                r = u(dict(zip(names, vals)))
+                if type(r) is not t or any(getattr(r, n) is not v for n, v in zip(names, vals)):
+                    pt.append(f"unmarshaller({src}) did not pass the values at its free-TypeVar fields through: {r!r}")
+                w = m(t(*vals))
+                if not (isinstance(w, dict) and all(w.get(n) is v for n, v in zip(names, vals))):
+                    pt.append(f"marshaller({src}) did not pass the values at its free-TypeVar fields through: {w!r}")
+            except Exception as e:  # noqa: BLE001
+                pt.append(f"free-TypeVar field probe raised {type(e).__name__}: {e}"[:160])
         # the parameters of a class without any annotation cannot be resolved: they are pass-through positions (whatever their defaults)
         if src == "NoHints":
             try:
